@@ -265,6 +265,56 @@ const TOKENS: [&str; 70] = [
     "Foo", "bar_baz", "_", "__", "0", "1", "-1", "4294967296", "99999999999999999999999", "e0af57f3-5537-48c6-b04d-e9011803609c", "\"str\"", "\"\\é\"", "x1",
 ];
 
+/// A family of schemas whose newtypes (optionally through local hops) refer to each other in a
+/// cycle of length 1..4 across schema boundaries (including a schema that imports itself), with
+/// the cycle used as a map key, set element, array element, field, variant or function argument.
+fn reference_cycle(r: &mut Rng) -> (String, Vec<(String, Result<String, String>)>) {
+    let n = 1 + r.below(4);
+    let names: Vec<String> = (0..n).map(|i| if i == 0 { "main_schema".to_string() } else { format!("cyc{}", i) }).collect();
+    let mut texts: Vec<String> = Vec::new();
+    for i in 0..n {
+        let next = (i + 1) % n;
+        let mut t = String::new();
+        // imports: the next schema of the ring (itself for n = 1), sometimes everything
+        if r.chance(1, 4) {
+            for nm in &names {
+                t.push_str(&format!("import {};\n", nm));
+            }
+        } else {
+            t.push_str(&format!("import {};\n", names[next]));
+        }
+        let local_hops = r.below(3);
+        // T0 -> T1 -> ... -> T{local_hops} -> next::T0
+        for h in 0..=local_hops {
+            let target = if h == local_hops { format!("{}::T0", names[next]) } else { format!("T{}", h + 1) };
+            let target = match r.below(8) {
+                0 => format!("box<{}>", target),
+                1 => format!("option<{}>", target),
+                _ => target,
+            };
+            t.push_str(&format!("newtype T{} = {};\n", h, target));
+        }
+        if i == 0 || r.chance(1, 3) {
+            let user = match r.below(8) {
+                0 => "struct User { k @ 1 = set<T0>; }".to_string(),
+                1 => "struct User { k @ 1 = map<T0 -> u8>; }".to_string(),
+                2 => "struct User { required k @ 1 = T0; }".to_string(),
+                3 => "enum User { K @ 1 = [T0; 2]; }".to_string(),
+                4 => format!("struct User {{ k @ 1 = map<{}::T0 -> vec<T0>>; }}", names[next]),
+                5 => "service User { uuid = 6b3c9d2e-1f5a-4c7b-8e9d-0a1b2c3d4e5f; version = 1; fn f @ 1 { args = set<T0>; ok = T0; } event e @ 1 = map<T0 -> T0>; }".to_string(),
+                6 => "newtype User = result<set<T0>, map<T0 -> T0>>;".to_string(),
+                _ => "struct User { k @ 1 = set<T0>; l @ 2 = vec<T0>; }".to_string(),
+            };
+            t.push_str(&user);
+            t.push('\n');
+        }
+        texts.push(t);
+    }
+    let main = texts.remove(0);
+    let others = names.into_iter().skip(1).zip(texts).map(|(n, t)| (n, Ok(t))).collect();
+    (main, others)
+}
+
 fn soup(r: &mut Rng) -> String {
     let mut s = String::new();
     let n = r.below(60);
@@ -346,7 +396,7 @@ impl Check for C17 {
         "exploration"
     }
     fn rule(&self) -> &'static str {
-        "one case = one source text: (a) a token soup over the grammar's alphabet (keywords, punctuation, identifiers incl. `_`, integers beyond 64 bit, uuids, strings with escapes, comments, docs), (b) a byte/line mutation of one of the repository's *.aldrin files, (c) a generated schema (valid or not) with adversarial doc comments (markdown links, CR/LF mixes, tabs, multi-byte characters), with resolvable, missing, failing or cyclic imports. Monitored twice each under a panic monitor, in child processes that attribute aborts: Parser::parse, Renderer::render of every issue (plain and unicode, widths 20/40/80/200), Formatter when it accepts, Generator::rust (with and without introspection) when there are no errors; the two runs must produce the same diagnostics as multisets. distinct = hash of the source text"
+        "one case = one source text: (a) a token soup over the grammar's alphabet (keywords, punctuation, identifiers incl. `_`, integers beyond 64 bit, uuids, strings with escapes, comments, docs), (b) a byte/line mutation of one of the repository's *.aldrin files, (c) a generated schema (valid or not) with adversarial doc comments (markdown links, CR/LF mixes, tabs, multi-byte characters), with resolvable, missing, failing or cyclic imports, (d) rings of 1-4 schemas whose newtypes refer to each other in a cycle across the schema boundaries, used as keys, elements, fields and arguments. Monitored twice each under a panic monitor, in child processes that attribute aborts: Parser::parse, Renderer::render of every issue (plain and unicode, widths 20/40/80/200), Formatter when it accepts, Generator::rust (with and without introspection) when there are no errors; the two runs must produce the same diagnostics as multisets. distinct = hash of the source text"
     }
     fn assumptions(&self) -> Vec<String> {
         vec!["nesting depth of generated and mutated type expressions stays below a few hundred; unbounded nesting is a recorded known finding with its own probe".into()]
@@ -422,6 +472,13 @@ impl Check for C17 {
         let mut rng = Rng::derive(ctx.seed, 0xC17, idx);
         let mut others: Vec<(String, Result<String, String>)> = Vec::new();
         let (class, text) = match idx % 4 {
+            // every 40th case: reference cycles across schema boundaries (every analysis that
+            // follows references must terminate on them)
+            0 if idx % 40 == 0 => {
+                let (t, o) = reference_cycle(&mut rng);
+                others = o;
+                ("reference-cycle", t)
+            }
             0 => ("soup", soup(&mut rng)),
             1 => {
                 let files = repo_schemas();
@@ -479,7 +536,7 @@ impl Check for C17 {
     }
     fn gates(&self, _tier: Tier, merged: &Outcome) -> Vec<String> {
         let mut g = Vec::new();
-        for k in ["issues_rendered", "formatted", "code_generated", "inputs[soup]", "inputs[mutated-file]", "inputs[generated]"] {
+        for k in ["issues_rendered", "formatted", "code_generated", "inputs[soup]", "inputs[mutated-file]", "inputs[generated]", "inputs[reference-cycle]"] {
             if merged.counters.get(k).copied().unwrap_or(0) == 0 {
                 g.push(format!("{} never happened", k));
             }
